@@ -18,17 +18,70 @@ import (
 	"strconv"
 	"strings"
 
+	"github.com/goplus/llgo/cl/blocks"
 	"github.com/goplus/llgo/internal/build"
+	llssa "github.com/goplus/llgo/ssa"
 	"golang.org/x/tools/go/ssa"
 	"golang.org/x/tools/go/ssa/ssautil"
 )
+
+// blocksLine prints the control-flow graph of f as blocks.Infos sees it and the REAL result of blocks.Infos:
+//
+//	<func> | succs per block (`;`-separated, `.` inside) | len(Preds) per block | kind:next per block
+func blocksLine(out *bufio.Writer, f *ssa.Function) {
+	if len(f.Blocks) == 0 {
+		return
+	}
+	var ss, ps []string
+	for _, b := range f.Blocks {
+		var s []int
+		for _, x := range b.Succs {
+			s = append(s, x.Index)
+		}
+		ss = append(ss, join(s))
+		ps = append(ps, strconv.Itoa(len(b.Preds)))
+	}
+	res := "panic"
+	func() {
+		defer func() {
+			if e := recover(); e != nil {
+				res = fmt.Sprintf("panic:%v", e)
+			}
+		}()
+		infos := blocks.Infos(f.Blocks)
+		var is []string
+		for _, in := range infos {
+			k := "?"
+			switch in.Kind {
+			case llssa.DeferAlways:
+				k = "A"
+			case llssa.DeferInCond:
+				k = "C"
+			case llssa.DeferInLoop:
+				k = "L"
+			}
+			n := "-"
+			if in.Next >= 0 {
+				n = strconv.Itoa(in.Next)
+			}
+			is = append(is, k+":"+n)
+		}
+		res = strings.Join(is, ",")
+	}()
+	fmt.Fprintf(out, "%s | %s | %s | %s\n", strings.ReplaceAll(f.String(), " ", ""), strings.Join(ss, ";"), strings.Join(ps, "."), res)
+}
 
 func main() {
 	out := bufio.NewWriter(os.Stdout)
 	defer out.Flush()
 	fset := token.NewFileSet()
 	var files []*ast.File
-	for _, fn := range os.Args[1:] {
+	args := os.Args[1:]
+	blocksMode := len(args) > 0 && args[0] == "-blocks"
+	if blocksMode {
+		args = args[1:]
+	}
+	for _, fn := range args {
 		f, err := parser.ParseFile(fset, fn, nil, parser.ParseComments)
 		if err != nil {
 			fmt.Fprintln(os.Stderr, "parse:", err)
@@ -72,6 +125,12 @@ func main() {
 				}
 			}
 		}
+	}
+	if blocksMode {
+		for _, f := range fns {
+			blocksLine(out, f)
+		}
+		return
 	}
 	for _, f := range fns {
 		ids := map[ssa.Instruction]int{}
